@@ -257,6 +257,8 @@ val choose_exec :
 
 val rotate : nat -> 'a1 list -> 'a1 list
 
+val unit_draw : q -> bool
+
 val exec : 'a1 samp -> q list -> call list -> 'a1 result * call list
 
 type node = n
